@@ -147,6 +147,11 @@ def run(ctx, config='rel-all'):
     from .. import runner
     from . import c17
     c17.run(runner.Sub(ctx, 'R6', 'C17'), config)
+    # ---- R7 every slot of [0, len) holds exactly one owned element only if the element-moving algorithms are std's: a cursor
+    # that steps the wrong way, a length lowered after (not before) the drop, a shifted copy of the wrong extent all duplicate or
+    # lose elements, i.e. run a destructor twice or never.  The formula clauses (O2) and the unwind typestate (R6) of C13.
+    from . import c13
+    c13.run(runner.Sub(ctx, 'R7', 'C13', only={'O2', 'R6', 'O3', 'O4'}), config)
     mu = ps.may_user()
     for b in db.fn_bodies():
         m = b['meta']
